@@ -55,8 +55,15 @@ func (e *Exec) makeEnvValue(t types.Type, name string) Value {
 		return Iface{Typ: storeMarkerType, Val: Opaque{Kind: "stubobj", Data: "accountkeeper"}}
 	}
 	switch u := t.Underlying().(type) {
+	case *types.Map:
+		return &MapObj{KT: u.Key(), VT: u.Elem(), Pre: true, Name: "keeper field " + name + " (map)"}
 	case *types.Pointer:
 		o := e.newObj(u.Elem(), e.makeEnvValue(u.Elem(), name))
+		if name != "" {
+			// memory reachable from a keeper outlives the call
+			o.Pre = true
+			o.Name = "keeper field " + name + " (pointee)"
+		}
 		return Ptr{Obj: o}
 	case *types.Struct:
 		fs := make([]Value, u.NumFields())
